@@ -643,23 +643,41 @@ Section ObjCache.
     | _ => None
     end.
 
+  (* BasinProxyFeature.__getitem__: a single index is served from the basin
+     directly as long as nothing has been cached ("cheap operation") *)
+  Definition skip_load (s : ostate) (r : rd) : bool :=
+    match r, o_array s with
+    | RdItem _, None => negb reuse
+    | _, _ => false
+    end.
+
+  (* any read request other than RdNop *)
+  Definition oread (s : ostate) (r : rd) : ostate * oout :=
+    if skip_load s r then
+      let l := match rd_fresh r with Some l => l | None => [] end in
+      let '(h, c) := halloc (o_heap s) l true in
+      let v := (c, seq_from O (length l)) in
+      ({| o_array := o_array s; o_heap := h; o_outs := o_outs s ++ [v] |},
+       OVal (rd_dt r) (view_value h v))
+    else
+      let '(h0, a, b) := ensure s in
+      let '(h1, v) :=
+        match rd_view r with
+        | Some pos => (h0, (b, pos))
+        | None =>
+            match rd_fresh r with
+            | Some l => let '(h, c) := halloc h0 l true in
+                        (h, (c, seq_from O (length l)))
+            | None => (h0, (b, []))
+            end
+        end in
+      ({| o_array := Some a; o_heap := h1; o_outs := o_outs s ++ [v] |},
+       OVal (rd_dt r) (view_value h1 v)).
+
   Definition ostep (s : ostate) (o : oop) : ostate * oout :=
     match o with
     | ORead RdNop => (s, ONone)
-    | ORead r =>
-        let '(h0, a, b) := ensure s in
-        let '(h1, v) :=
-          match rd_view r with
-          | Some pos => (h0, (b, pos))
-          | None =>
-              match rd_fresh r with
-              | Some l => let '(h, c) := halloc h0 l true in
-                          (h, (c, seq_from O (length l)))
-              | None => (h0, (b, []))
-              end
-          end in
-        ({| o_array := Some a; o_heap := h1; o_outs := o_outs s ++ [v] |},
-         OVal (rd_dt r) (view_value h1 v))
+    | ORead r => oread s r
     | OMut j delta =>
         match nth_error (o_outs s) j with
         | Some v =>
@@ -679,15 +697,17 @@ Section ObjCache.
     end.
 
   (* specification: what the request denotes on the stored data, and its dtype *)
+  Definition ospec_read (r : rd) : Z * option (list Z) :=
+    (rd_dt r,
+     match rd_view r with
+     | Some pos => select data pos
+     | None => match rd_fresh r with Some l => Some l | None => Some [] end
+     end).
+
   Definition ospec (o : oop) : option (Z * option (list Z)) :=
     match o with
     | ORead RdNop => None
-    | ORead r =>
-        Some (rd_dt r,
-              match rd_view r with
-              | Some pos => select data pos
-              | None => match rd_fresh r with Some l => Some l | None => Some [] end
-              end)
+    | ORead r => Some (ospec_read r)
     | OMut _ _ => None
     end.
 
